@@ -512,7 +512,11 @@ fn keep_rule(fs: &[FInfo], m: usize, with_event: bool) -> bool {
     pos_ok && !neg_hit && ev_ok
 }
 
-fn record(sink: &mut Sink, tmp: &std::path::Path, c: CaseIn, extra_tags: &[&str]) {
+fn ws_applicable(c: &CaseIn) -> bool {
+    c.ws && !c.msgs.is_empty() && !c.filters.iter().any(|f| f.get("lifecycles").is_some())
+}
+
+fn record(sink: &mut Sink, tmp: &std::path::Path, c: CaseIn, extra_tags: &[&str], search: Option<Result<Vec<u64>, String>>) {
     let n = c.msgs.len();
     // lifecycle table (only when the plugin gets a read handle): the case-level lifecycles 0..2 get real ids
     let lcs_all = if c.handle { Some(make_lcs()) } else { None };
@@ -562,10 +566,6 @@ fn record(sink: &mut Sink, tmp: &std::path::Path, c: CaseIn, extra_tags: &[&str]
         let set_rel = run_set(&rel_json, &msgs2, c2.offset, c2.chunk);
         (st, st_nobudget, set, ex, st_rel, set_rel)
     }));
-    // the search constructor of the bin crate: only through the real server
-    let ws_applicable = c.ws && n >= 1 && !c.filters.iter().any(|f| f.get("lifecycles").is_some());
-    let search: Option<Result<Vec<u64>, String>> = if ws_applicable { server_port().map(|port| ws_search(port, tmp, &msgs, &filters_json)) } else { None };
-
     let fail = |cl: &str, d: String| Verdict::Fail { clause: cl.into(), detail: d };
     let mut tags: Vec<String> = extra_tags.iter().map(|s| s.to_string()).collect();
     let (obs, verdict) = match &run {
@@ -923,7 +923,7 @@ fn gen_case(rng: &mut Rng, big: bool) -> CaseIn {
     let exp_enabled = !rng.chance(1, 12);
     let from_ms = if rng.chance(1, 3) { Some(rng.below(20)) } else { None };
     let to_ms = if rng.chance(1, 3) { Some(rng.below(22)) } else { None };
-    let ws = nm >= 1 && rng.chance(1, if big { 40 } else { 10 });
+    let ws = nm >= 1 && rng.chance(1, if big { 25 } else { 6 });
     if ws {
         for f in filters.iter_mut() {
             // lifecycle ids are assigned by the server: no lifecycle criterion in searches
@@ -944,7 +944,9 @@ fn simple_msgs() -> Vec<MsgSpec> {
     v
 }
 
-fn corpus(sink: &mut Sink, tmp: &std::path::Path) {
+type Plan = Vec<(CaseIn, Vec<&'static str>)>;
+
+fn corpus(plan: &mut Plan) {
     let base = |filters: Vec<Value>| CaseIn {
         filters,
         msgs: simple_msgs(),
@@ -959,38 +961,38 @@ fn corpus(sink: &mut Sink, tmp: &std::path::Path) {
         to_ms: None,
     };
     // no filter at all
-    record(sink, tmp, base(vec![]), &["corpus"]);
+    plan.push((base(vec![]), vec!["corpus"]));
     // the table of remote_utils::tests::match_filters_1, extended
-    record(sink, tmp, base(vec![json!({"type":0,"ecu":"EC00"})]), &["corpus"]);
-    record(sink, tmp, base(vec![json!({"type":1,"ecu":"EC00"})]), &["corpus"]);
-    record(sink, tmp, base(vec![json!({"type":0,"ecu":"EC00"}), json!({"type":0,"ecu":"EC01"})]), &["corpus"]);
-    record(sink, tmp, base(vec![json!({"type":0,"ecu":"EC00"}), json!({"type":3,"apid":"APP1"})]), &["corpus"]);
-    record(sink, tmp, base(vec![json!({"type":3,"apid":"APP1"}), json!({"type":1,"ecu":"EC01"})]), &["corpus"]);
+    plan.push((base(vec![json!({"type":0,"ecu":"EC00"})]), vec!["corpus"]));
+    plan.push((base(vec![json!({"type":1,"ecu":"EC00"})]), vec!["corpus"]));
+    plan.push((base(vec![json!({"type":0,"ecu":"EC00"}), json!({"type":0,"ecu":"EC01"})]), vec!["corpus"]));
+    plan.push((base(vec![json!({"type":0,"ecu":"EC00"}), json!({"type":3,"apid":"APP1"})]), vec!["corpus"]));
+    plan.push((base(vec![json!({"type":3,"apid":"APP1"}), json!({"type":1,"ecu":"EC01"})]), vec!["corpus"]));
     // only disabled positive filters: everything passes ("no enabled positive filter exists")
-    record(sink, tmp, base(vec![json!({"type":0,"ecu":"EC00","enabled":false})]), &["corpus"]);
+    plan.push((base(vec![json!({"type":0,"ecu":"EC00","enabled":false})]), vec!["corpus"]));
     // disabled negative / disabled event / marker must not veto
-    record(sink, tmp, base(vec![json!({"type":1,"enabled":false}), json!({"type":3,"enabled":false,"ecu":"EC02"}), json!({"type":2,"ecu":"EC01"})]), &["corpus"]);
+    plan.push((base(vec![json!({"type":1,"enabled":false}), json!({"type":3,"enabled":false,"ecu":"EC02"}), json!({"type":2,"ecu":"EC01"})]), vec!["corpus"]));
     // negated filters in all roles
-    record(sink, tmp, base(vec![json!({"type":0,"not":true,"ecu":"EC00"}), json!({"type":1,"not":true,"apid":"APP0"}), json!({"type":3,"not":true,"ctid":"CTX1"})]), &["corpus"]);
+    plan.push((base(vec![json!({"type":0,"not":true,"ecu":"EC00"}), json!({"type":1,"not":true,"apid":"APP0"}), json!({"type":3,"not":true,"ctid":"CTX1"})]), vec!["corpus"]));
     // criterion-free filters: positive matches all, negative vetoes all
-    record(sink, tmp, base(vec![json!({"type":0})]), &["corpus"]);
-    record(sink, tmp, base(vec![json!({"type":0,"ecu":"EC00"}), json!({"type":1})]), &["corpus"]);
+    plan.push((base(vec![json!({"type":0})]), vec!["corpus"]));
+    plan.push((base(vec![json!({"type":0,"ecu":"EC00"}), json!({"type":1})]), vec!["corpus"]));
     // hang-ups at 0, in the middle, at exactly the number of kept messages, beyond
     for k in [0u64, 1, 2, 3] {
         let mut c = base(vec![json!({"type":0,"ecu":"EC00"})]);
         c.budget = Some(k);
-        record(sink, tmp, c, &["corpus"]);
+        plan.push((c, vec!["corpus"]));
     }
     // export: lifecyclesToKeep filter vetoes everything but lifecycle u32::MAX; time window boundaries inclusive
     let mut c = base(vec![json!({"type":0,"ecu":"EC00"})]);
     c.to_keep = vec![(0, 1, 2)];
-    record(sink, tmp, c, &["corpus"]);
+    plan.push((c, vec!["corpus"]));
     // ... with a lifecycle table: lifecycles 0 (ecu 0) and 2 (ecu 2) are found, 1 is not; configured filters still apply
     let mut c = base(vec![json!({"type":1,"apid":"APP1"})]);
     c.to_keep = vec![(2, 3000, 3000), (1, 0, 1999), (0, 0, 1000)];
     c.handle = true;
     c.msgs.pop(); // the message without a known lifecycle
-    record(sink, tmp, c, &["corpus"]);
+    plan.push((c, vec!["corpus"]));
     // first message of a lifecycle has a different ecu than the entry: the lifecycle is marked checked and never kept
     let mut c = base(vec![]);
     c.to_keep = vec![(0, 0, 5000)];
@@ -1001,27 +1003,27 @@ fn corpus(sink: &mut Sink, tmp: &std::path::Path) {
         MsgSpec { ecu: 0, ext: None, lc: 1, rt: 3 },
         MsgSpec { ecu: 0, ext: None, lc: 2, rt: 4 },
     ];
-    record(sink, tmp, c, &["corpus"]);
+    plan.push((c, vec!["corpus"]));
     // unknown lifecycle with a table: the plugin panics (outside this property)
     let mut c = base(vec![]);
     c.to_keep = vec![(0, 0, 5000)];
     c.handle = true;
-    record(sink, tmp, c, &["corpus"]);
+    plan.push((c, vec!["corpus"]));
     let mut c = base(vec![]);
     c.from_ms = Some(2);
     c.to_ms = Some(4);
-    record(sink, tmp, c, &["corpus"]);
+    plan.push((c, vec!["corpus"]));
     let mut c = base(vec![json!({"type":1,"ecu":"EC01"})]);
     c.exp_enabled = false;
-    record(sink, tmp, c, &["corpus"]);
+    plan.push((c, vec!["corpus"]));
     // chunk limits / offsets of process_stream_new_msgs
     let mut c = base(vec![json!({"type":0,"ecu":"EC01"}), json!({"type":0,"ecu":"EC02"})]);
     c.offset = 100;
     c.chunk = 4;
-    record(sink, tmp, c, &["corpus"]);
+    plan.push((c, vec!["corpus"]));
     let mut c = base(vec![json!({"type":2})]);
     c.offset = 5;
-    record(sink, tmp, c, &["corpus"]);
+    plan.push((c, vec!["corpus"]));
     // long streams: rayon really splits the work in process_stream_new_msgs; order must survive
     for (nmsg, seed) in [(2000u64, 7u64), (1500, 8)] {
         let mut rng = Rng::new(seed);
@@ -1030,17 +1032,17 @@ fn corpus(sink: &mut Sink, tmp: &std::path::Path) {
             .map(|i| MsgSpec { ecu: rng.below(3) as u8, ext: if rng.chance(1, 6) { None } else { Some((rng.below(3) as u8, rng.below(2) as u8)) }, lc: 0, rt: i })
             .collect();
         c.offset = 17;
-        record(sink, tmp, c, &["corpus", "long_stream"]);
+        plan.push((c, vec!["corpus", "long_stream"]));
     }
     // empty stream
     let mut c = base(vec![json!({"type":0}), json!({"type":1})]);
     c.msgs = vec![];
-    record(sink, tmp, c, &["corpus"]);
+    plan.push((c, vec!["corpus"]));
 }
 
 /// exhaustive: every (kind, enabled) combination for sets of up to 3 filters whose rows are chosen so that the
 /// 2^k match patterns over k filters all occur among the messages
-fn exhaustive(sink: &mut Sink, tmp: &std::path::Path, max: usize) {
+fn exhaustive(plan: &mut Plan, max: usize) {
     // filter i matches exactly the messages of ecu i or lifecycle 9 ... simpler: filter i = {"ecu": ECi}, negated variants;
     // messages: one per ecu 0..2 plus one of ecu 7 (matched by none) -> patterns 100,010,001,000; overlaps come from `not`.
     let msgs: Vec<MsgSpec> = [0u8, 1, 2, 7].iter().map(|e| MsgSpec { ecu: *e, ext: None, lc: 0, rt: 0 }).collect();
@@ -1076,7 +1078,7 @@ fn exhaustive(sink: &mut Sink, tmp: &std::path::Path, max: usize) {
                 from_ms: None,
                 to_ms: None,
             };
-            record(sink, tmp, c, &["exhaustive2"]);
+            plan.push((c, vec!["exhaustive2"]));
             count += 1;
         }
     }
@@ -1091,31 +1093,64 @@ fn main() {
     }
 }
 
+/// the websocket searches of all planned cases, a few sessions at a time (each one mostly waits for server ticks)
+fn prefetch_searches(plan: &Plan, tmp: &std::path::Path) -> Vec<Option<Result<Vec<u64>, String>>> {
+    let mut res: Vec<Option<Result<Vec<u64>, String>>> = plan.iter().map(|_| None).collect();
+    let todo: Vec<usize> = (0..plan.len()).filter(|i| ws_applicable(&plan[*i].0)).collect();
+    if todo.is_empty() {
+        return res;
+    }
+    let port = match server_port() {
+        Some(p) => p,
+        None => return res,
+    };
+    for chunk in todo.chunks(6) {
+        let hs: Vec<_> = chunk
+            .iter()
+            .map(|i| {
+                let c = plan[*i].0.clone();
+                let dir = tmp.to_path_buf();
+                std::thread::spawn(move || {
+                    // lifecycle ids are not stored in a file and searches carry no lifecycle criterion
+                    let msgs: Vec<DltMessage> = c.msgs.iter().enumerate().map(|(k, s)| build_msg(k, s)).collect();
+                    ws_search(port, &dir, &msgs, &c.filters)
+                })
+            })
+            .collect();
+        for (i, h) in chunk.iter().zip(hs.into_iter()) {
+            res[*i] = Some(h.join().unwrap_or_else(|_| Err("session thread panicked".into())));
+        }
+    }
+    res
+}
+
 fn real_main() {
     let a = parse_args();
     let mut sink = Sink::new("C12", &a.out);
     let tmp = tempfile::Builder::new().prefix("c12_").tempdir().unwrap();
+    let mut plan: Plan = vec![];
     if let Some(p) = &a.replay {
         let v = read_replay(p);
-        record(&mut sink, tmp.path(), case_from_json(&v["case"]), &["replay"]);
-        server_stop();
-        sink.finish();
-        return;
+        plan.push((case_from_json(&v["case"]), vec!["replay"]));
+    } else {
+        if a.tier != "search" {
+            corpus(&mut plan);
+            exhaustive(&mut plan, 256);
+        }
+        let n = a.count.unwrap_or(match a.tier.as_str() {
+            "quick" => 1000,
+            "search" => 3000,
+            _ => 20000,
+        });
+        let mut rng = Rng::new(a.seed);
+        for _ in 0..n {
+            plan.push((gen_case(&mut rng, a.tier != "quick"), vec![]));
+        }
     }
-    if a.tier != "search" {
-        corpus(&mut sink, tmp.path());
-        exhaustive(&mut sink, tmp.path(), 256);
-    }
-    let n = a.count.unwrap_or(match a.tier.as_str() {
-        "quick" => 1000,
-        "search" => 3000,
-        _ => 20000,
-    });
-    let mut rng = Rng::new(a.seed);
-    for _ in 0..n {
-        let c = gen_case(&mut rng, a.tier != "quick");
-        record(&mut sink, tmp.path(), c, &[]);
-    }
+    let searches = prefetch_searches(&plan, tmp.path());
     server_stop();
+    for ((c, tags), search) in plan.into_iter().zip(searches.into_iter()) {
+        record(&mut sink, tmp.path(), c, &tags, search);
+    }
     sink.finish();
 }
